@@ -329,7 +329,7 @@ func zzC05Query(c *dns.Client, conn *dns.Conn, name string, qt uint16) (rep zzC0
 	// UDP by design; do not wait long for them and do not count the silence as
 	// a stall.
 	mayDrop := strings.Contains(name, "access-blocked") || strings.Contains(name, "access-rule")
-	d := 4 * time.Second
+	d := 8 * time.Second
 	if mayDrop {
 		d = 300 * time.Millisecond
 	}
@@ -700,7 +700,7 @@ func zzC05RunFamily(
 			}
 
 			src := fmt.Sprintf("127.0.7.%d", 1+g%4)
-			c := &dns.Client{Net: netw, Timeout: 4 * time.Second}
+			c := &dns.Client{Net: netw, Timeout: 8 * time.Second}
 			var laddr net.Addr
 			if netw == "udp" {
 				laddr = &net.UDPAddr{IP: net.ParseIP(src)}
